@@ -311,12 +311,21 @@ class IncludeIpsNode(NodeProtocol):
             if ips_file.read(5) != b"PATCH":
                 raise RuntimeError(f'{self.ips_file_path} is missing "PATCH" header')
 
-            while ips_file.peek(3)[:3] != b"EOF":
-                block_addr_bytes = struct.unpack(">BH", ips_file.read(3))
+            while True:
+                header = ips_file.read(3)
+                if header == b"EOF":
+                    break
+                block_addr_bytes = struct.unpack(">BH", header)
                 block_addr = (block_addr_bytes[0] << 16) | block_addr_bytes[1]
                 block_size_word = struct.unpack(">H", ips_file.read(2))
                 block_size = block_size_word[0]
-                block = ips_file.read(block_size)
+                if block_size == 0:
+                    run_length, run_value = struct.unpack(">HB", ips_file.read(3))
+                    block = bytes([run_value]) * run_length
+                else:
+                    block = ips_file.read(block_size)
+                    if len(block) != block_size:
+                        raise RuntimeError(f"{self.ips_file_path} is truncated")
 
                 if self.delta is not None:
                     block_addr += self.delta
